@@ -24,9 +24,12 @@ CLAIMED = {
                 text="Bounded runtime contract: partial sums over all chain subsets, homogeneity in the coupling, fit-fraction sum rule and batch independence on real models.",
                 note=KERNEL_NOTE, technique=TECH_B),
     "C04": dict(level="other", design="3/C04",
-                text="Bounded comparison of the density with an independent NumPy closed form (Legendre x Blatt-Weisskopf x Breit-Wigner) for J=0..4 and all chain subsets; "
-                     "kernel pieces (barrier tables, d-matrix weights) are ground-exhaustive/proved under C12/C15.",
-                note=KERNEL_NOTE, technique=TECH_B),
+                text="Amplitude stage PROVED for all inputs: the real pipeline AmplitudeModel.__call__ -> DecayGroup.sum_amp -> DecayChain/HelicityDecay/Particle.get_amp -> dfun "
+                     "is executed on a data dictionary of symbols and equals the closed form of the statement as an identity in every event quantity, mass, width and coupling, for "
+                     "every single chain (J = 0..4), every pair of chains (all 75 spin pairs) and all 125 spin triples; BWR / Bprime_q2 enter through proved callee contracts. "
+                     "Kinematic stage (cal_angle fills the dictionary with invariant masses, momenta, helicity angle) and the end-to-end density: bounded comparison with an "
+                     "independent NumPy closed form, incl. moving-parent frames and spin scans under reused particle names.",
+                note=KERNEL_NOTE + "; the composition kinematic stage -> amplitude stage is argued in DESIGN 3/C04, not machine-checked", technique=TECH_S + "; " + TECH_B),
     "C05": dict(level="other", design="3/C05",
                 text="Bounded runtime contract over the selectable evaluation strategies (cached, factorised, p4, tf.function/XLA, lazy, cached likelihoods) vs plain eager evaluation; "
                      "custom einsum vs reference contraction proved per (expression, shape) for all tensor values where built.",
